@@ -33,6 +33,9 @@ type regCase struct {
 	// triggered by re-requesting a closed scope can overlap a pass inside one counter (C01); such
 	// runs are checked by the direct predicate only
 	CtrYields bool `json:"ctr_yields,omitempty"`
+	// Gauges: every "inc" also updates a gauge of the scope to a value unique to (object, number of
+	// the update), and the run is judged on the gauge deliveries as well (C02)
+	Gauges bool `json:"gauges,omitempty"`
 }
 
 type regObj struct {
@@ -57,6 +60,7 @@ type regOut struct {
 	WrongTags      string   `json:"wrong_tags,omitempty"`
 	Blocked        int      `json:"blocked_steps"`
 	Ambiguous      bool     `json:"ambiguous,omitempty"` // two goroutines were blocked at once: executed order not determined
+	GaugeFail      string   `json:"gauge_fail,omitempty"`
 }
 
 var regSanOpts = &tally.SanitizeOptions{
@@ -199,7 +203,11 @@ func (r *regRun) app(prog []regOp) func() {
 					cur.Counter(fmt.Sprintf("c%d", curObj)).Inc(1)
 					r.mu.Lock()
 					r.out.Objs[curObj].Applied++
+					nth := r.out.Objs[curObj].Applied
 					r.mu.Unlock()
+					if r.c.Gauges {
+						cur.Gauge(fmt.Sprintf("g%d", curObj)).Update(float64(1000*int64(curObj) + nth))
+					}
 				}
 			case "close":
 				if cur != nil {
@@ -356,6 +364,34 @@ func (r *regRun) collect() {
 	for i := range r.out.Objs {
 		r.out.Objs[i].Delivered = del[fmt.Sprintf("c%d", i)]
 	}
+	if r.c.Gauges {
+		// gauge g<obj> was updated to 1000*obj + n by the n-th "inc" through the object: a closed
+		// object must have delivered its last update before Close was called or a later one, a
+		// live one its last update as the most recent delivery (a complete pass has just run)
+		got := c02Delivered(r.log)
+		for i, o := range r.out.Objs {
+			if i == 0 || o.Applied == 0 || r.out.GaugeFail != "" {
+				continue
+			}
+			vs := got[fmt.Sprintf("g%d", i)]
+			if o.Closed {
+				if o.AtClose == 0 {
+					continue
+				}
+				ok := false
+				for _, v := range vs {
+					if v >= float64(1000*int64(i)+o.AtClose) {
+						ok = true
+					}
+				}
+				if !ok {
+					r.out.GaugeFail = fmt.Sprintf("object %d (closed): its gauge was updated to %d before Close was called; neither that value nor a later one was ever delivered (deliveries %v)", i, 1000*int64(i)+o.AtClose, vs)
+				}
+			} else if len(vs) == 0 || vs[len(vs)-1] != float64(1000*int64(i)+o.Applied) {
+				r.out.GaugeFail = fmt.Sprintf("object %d (live, returned by the API): the last update of its gauge was %d; deliveries after a complete report pass: %v", i, 1000*int64(i)+o.Applied, vs)
+			}
+		}
+	}
 	live := map[string]bool{}
 	for _, e := range tally.VerifRegistryDump(r.root) {
 		if !e.Closed {
@@ -383,6 +419,9 @@ func regPredicate(out *regOut) string {
 	if out.ClosedReturned != "" {
 		return out.ClosedReturned + " (a scope obtained after Close must be functional)"
 	}
+	if out.GaugeFail != "" {
+		return out.GaugeFail
+	}
 	live := map[string]bool{}
 	for _, id := range out.Live {
 		live[id] = true
@@ -407,16 +446,20 @@ func regPredicate(out *regOut) string {
 			}
 		}
 	}
-	return ""
+	return out.GaugeFail
 }
 
 // regCrossStream runs registry scenarios (obtain / record / Close / obtain again interleaved
 // with report passes under the schedule controller) for properties whose statement also has
 // to survive such cycles: identities must keep their own scope, tags and deliveries (C04, C05).
 // Direct predicate only.
-func regCrossStream(ctx *Ctx, n int, pred string) {
+func regCrossStream(ctx *Ctx, n int, pred string) { regCrossStreamG(ctx, n, pred, false) }
+
+// regCrossStreamG: the same with a gauge per scope when gauges is set (C02).
+func regCrossStreamG(ctx *Ctx, n int, pred string, gauges bool) {
 	for k := 0; k < n; k++ {
 		rc := c07Gen(ctx.R, ctx.Thorough())
+		rc.Gauges = gauges
 		if k%4 == 3 {
 			rc.Shards = []int{2, 16}[ctx.R.Intn(2)]
 		}
